@@ -334,10 +334,77 @@ func (g *gen) stmt(d int) *Node {
 
 func (g *gen) pickK(ks ...Kind) Kind { return ks[g.r.Intn(len(ks))] }
 
+// aliasScenario is a multi-step sequence over containers held in variables: build, derive a
+// second value (concatenation, repetition, slice, plain assignment), mutate one of them, read
+// them all. Copy-versus-reference mistakes (a derived value sharing storage with its source)
+// only show in such sequences.
+func (g *gen) aliasScenario() []*Node {
+	lit := func(n int) *Node {
+		a := &Node{K: KArr}
+		for i := 0; i < n; i++ {
+			a.Kids = append(a.Kids, I(int64(g.r.Intn(9))))
+		}
+		return a
+	}
+	asg := func(name string, e *Node) *Node { return &Node{K: KAssign, S: name, Kids: []*Node{e}} }
+	meth := func(name string, base *Node, args ...*Node) *Node {
+		return &Node{K: KMethod, S: name, Kids: append([]*Node{base}, args...)}
+	}
+	var out []*Node
+	out = append(out, asg("va", lit(g.r.Intn(12))))
+	for k := g.r.Intn(3); k > 0; k-- {
+		switch g.r.Intn(3) {
+		case 0:
+			out = append(out, meth("pop", V("va")))
+		case 1:
+			out = append(out, meth("push", V("va"), I(int64(g.r.Intn(9)))))
+		default:
+			out = append(out, meth("shift", V("va")))
+		}
+	}
+	derive := func(dst string) *Node {
+		switch g.r.Intn(6) {
+		case 0, 1:
+			return asg(dst, &Node{K: KBin, S: "+", Kids: []*Node{V("va"), lit(g.r.Intn(3))}})
+		case 2:
+			return asg(dst, &Node{K: KBin, S: "*", Kids: []*Node{V("va"), I(int64(1 + g.r.Intn(2)))}})
+		case 3:
+			return asg(dst, &Node{K: KSlice, Kids: []*Node{V("va"), g.optIdx(), g.optIdx()}})
+		case 4:
+			return asg(dst, &Node{K: KBin, S: "+", Kids: []*Node{lit(g.r.Intn(3)), V("va")}})
+		default:
+			return asg(dst, V("va"))
+		}
+	}
+	out = append(out, derive("t1"))
+	for k := 1 + g.r.Intn(2); k > 0; k-- {
+		switch g.r.Intn(6) {
+		case 0:
+			out = append(out, derive("t2"))
+		case 1:
+			out = append(out, meth("push", V(g.pick("va", "t1")), I(int64(10+g.r.Intn(9)))))
+		case 2:
+			out = append(out, &Node{K: KItemSet, Kids: []*Node{V(g.pick("va", "t1", "t2")), I(int64(g.r.Intn(3))), I(int64(20 + g.r.Intn(9)))}})
+		case 3:
+			out = append(out, meth("pop", V(g.pick("va", "t1"))))
+		case 4:
+			out = append(out, asg("t2", &Node{K: KBin, S: "+", Kids: []*Node{V("t1"), lit(1 + g.r.Intn(2))}}))
+		default:
+			out = append(out, asg("va", &Node{K: KBin, S: "+", Kids: []*Node{V("va"), lit(1)}}))
+		}
+	}
+	out = append(out, &Node{K: KArr, Kids: []*Node{V("va"), V("t1"), V("t2")}})
+	return out
+}
+
 func (g *gen) stmts(d, max int) []*Node {
 	n := 1 + g.r.Intn(max)
 	var out []*Node
 	for i := 0; i < n; i++ {
+		if d > 0 && !g.inLoop && g.depthF == 0 && g.r.Intn(12) == 0 {
+			out = append(out, g.aliasScenario()...)
+			continue
+		}
 		out = append(out, g.stmt(d))
 	}
 	return out
